@@ -911,6 +911,17 @@ bool QXmppTransferManager::handleStanza(const QDomElement &element)
         return false;
     }
 
+    // none of the protocols uses IQs of type 'get' (the client replies with an error)
+    const auto type = element.attribute(u"type"_s);
+    if (type == u"get") {
+        return false;
+    }
+    // IBB requests are always of type 'set'; responses must never be answered
+    if (type != u"set" &&
+        (QXmppIbbCloseIq::isIbbCloseIq(element) || QXmppIbbDataIq::isIbbDataIq(element) || QXmppIbbOpenIq::isIbbOpenIq(element))) {
+        return false;
+    }
+
     // XEP-0047 In-Band Bytestreams
     if (QXmppIbbCloseIq::isIbbCloseIq(element)) {
         QXmppIbbCloseIq ibbCloseIq;
